@@ -42,6 +42,53 @@ PROPS["C02"] = {
     "search_thorough": False,
 }
 
+CODEC_TB = COMMON_TB + [
+    "bytes::Buf / BytesMut reads and writes modelled as big-endian list operations with truncating `as u16`/`as u8` casts (Model/Basic.lean, Model/Value.lean)",
+    "String::from_utf8_lossy modelled by Model/Utf8.lean; Rust String = byte list with validUtf8",
+    "HashMap<String, IppAttribute> modelled as a finite map with an arbitrary but fixed iteration order per instance (a listing); key = stored attribute name (maintained by add, constructors, builders, parser)",
+    "BTreeMap<String, IppValue> modelled as a list sorted by byte-lexicographic key order (Model/SMap.lean)",
+]
+
+PROPS["C01"] = {
+    "features": None,
+    "technique": "Lean 4 proof: refinement (C04) composed with reference-encoding theorem (C03), for all listings; differential round trips",
+    "level_text": "Machine-checked theorem `roundtrip`: for every header, every message of the public value model (all 22 kinds, mixed sets, collections of any depth with multi-valued members, repeated/empty groups, every name/value within the 16-bit wire length), every iteration order of every attribute map and every payload, the model parser applied to the model encoder's bytes followed by the payload returns exactly (header, groups, payload); plus `singleton_set`. No size or depth bound; proved by structural induction over the value type and the loop's fuel. Tie to the code: on every run seeded random messages are built with fresh randomly keyed hash maps, encoded and parsed by the real code, and both the bytes and the parse result are diffed against the model; the round-trip oracle runs on the real code.",
+    "level_note": "Trusts the Lean kernel, the translator, the correspondence check, and the modelled-library assumptions listed in the evidence (HashMap/BTreeMap/bytes/from_utf8_lossy). The theorem is about the model; the model is validated on the explored messages.",
+    "design_ref": "DESIGN.md section 9, C01",
+    "trusted_base": CODEC_TB,
+    "assumptions": ["a group's map key equals the name stored in the attribute (the harness checks this on every instance it reads back)"],
+}
+
+PROPS["C03"] = {
+    "features": None,
+    "technique": "Lean 4 proof: encoder = Spec.ser of the reference wire tree for all listings; independent RFC 8010 reader (Spec.unser) run on the real bytes",
+    "level_text": "Machine-checked theorems: for every message of the domain of C01 and every listing (iteration order) `encodeMsg h L = ser (toWireMsg h L)` (bytes identical to the reference encoding written from RFC 8010), `wfWire (toWireMsg h L)` (registered tags, lengths, empty names on additional values, bracketed collections, member names before their values, one end tag), `interp (toWireMsg h L) = (h, gs)` (the RFC reading of the bytes is the message), `tagOf v = registryTag v`. Tie to the code: the real encoder's bytes for seeded random messages built on fresh hash maps are compared with the model encoder's, and are read by an independent grammar-directed decoder (Spec.unser: no state machine, no stack) whose result must be well-formed, re-serialise to the same bytes, have unique names and interpret to the message.",
+    "level_note": "Trusts the Lean kernel, the translator, the correspondence check, Spec/Wire.lean as the transcription of RFC 8010 section 3, and the modelled-library assumptions (HashMap iteration = arbitrary listing).",
+    "design_ref": "DESIGN.md section 9, C03",
+    "trusted_base": CODEC_TB + ["Spec/Wire.lean, Spec/ToWire.lean, Spec/Unser.lean: the RFC 8010 grammar, reference encoding and independent reader, written from the RFC"],
+    "assumptions": ["a group's map key equals the name stored in the attribute"],
+}
+
+PROPS["C04"] = {
+    "features": None,
+    "technique": "Lean 4 proof: refinement of the RFC 8010 wire grammar by the parser's state machine (token framing + collection stack = tree interpretation)",
+    "level_text": "Machine-checked refinement theorem `parse_wellformed`: for every well-formed wire tree w (any groups incl. repeated/empty, any tag 0x10-0x4a, out-of-band and unregistered syntaxes, mixed sets, multi-valued members, sets of collections, non-UTF-8 text, duplicate names, boundary lengths) and every payload p, `parseFlat (ser w ++ p) = ok (interp w, p)`; and `reject_bad_tag`: a byte outside both tag ranges at a tag position after any complete well-formed groups yields InvalidTag. Unbounded in size and nesting. Tie to the code: seeded wire trees from the grammar (with a malformed share) are serialised by the harness's own serializer, parsed by the real blocking and async parsers, and compared with the model parser (correspondence) and with Spec.interp (oracle).",
+    "level_note": "Trusts the Lean kernel, the translator (tag ranges of the loop, bracket tags, ValueTag table), the correspondence check and Spec/Wire.lean as the transcription of RFC 8010. OctetString is held as a String by the library, so its non-UTF-8 bytes are replaced like text; the spec's reading says the same.",
+    "design_ref": "DESIGN.md section 9, C04",
+    "trusted_base": CODEC_TB + ["Spec/Wire.lean: grammar, ser, interp, wfWire written from RFC 8010"],
+    "assumptions": ["std read_exact on a fully available byte string = take/drop (flatRd)"],
+}
+
+PROPS["C09"] = {
+    "features": None,
+    "technique": "Lean 4 proof: wire prefix fixed for every listing + invariant over add histories from every constructor/builder; order read off real bytes of many fresh instances",
+    "level_text": "Machine-checked theorems: `header_attrs_pin` (the translated HEADER_ATTRS equals the RFC 8011 order charset, natural-language, printer-uri, job-uri, job-id), `wire_order` (shape of every encoded message whose first group is the operation group, for every listing), `prefix_order_independent` (the bytes up to the last header attribute are the same for every iteration order), `good_buildOp`/`good_adds`/`built_then_added_in_order` (every builder result followed by any sequence of additions starts with the operation group containing charset and language, hence is emitted in RFC order). Tie to the code: 12 request shapes x random arguments and additions, each built as several fresh instances; the real bytes up to the end of the header attributes are diffed against the model and an independent reader checks the names' order on the wire.",
+    "level_note": "Trusts the Lean kernel, the translator (HEADER_ATTRS, attribute-name constants), the correspondence check; HashMap iteration order is an arbitrary listing.",
+    "design_ref": "DESIGN.md section 9, C09",
+    "trusted_base": CODEC_TB,
+    "assumptions": ["job-id is required 4th only when printer-uri is present (RFC 8011 4.1.5); with job-uri both are emitted in the order job-uri, job-id"],
+}
+
 ALL_IDS = ["C%02d" % i for i in range(1, 21)]
 
 NOT_YET = "not claimed in this revision: the theorem/correspondence pair for this property is not built yet (see DESIGN.md section 13)"
